@@ -228,6 +228,21 @@ def readSeqFrom (d : Dec I) : List (Option Str × List Bytes) → List (Except P
     let o := readBodyFrom I (setupDecompressor I d enc) ps
     o.result :: readSeqFrom o.final rest
 
+/-! ### Content-Length framing: which pieces reach the decoder -/
+
+/-- The read loop of `Stream._read_body_by_length`: `reads` are the byte strings
+the successive `connection.read(4096)` calls return, `left` is `bytes_left`.
+Each read is handed on whole while it fits; the read that overruns the declared
+length is cut to the bytes still allowed (`data[:bytes_left]` with the already
+decremented, negative `bytes_left`) and ends the loop; an empty read ends it too
+(the code then raises NetworkError when bytes are still missing — C08's subject). -/
+def lengthPieces : Nat → List Bytes → List Bytes
+  | _, [] => []
+  | left, r :: rs =>
+    if left = 0 ∨ r = [] then []
+    else if r.length ≤ left then r :: lengthPieces (left - r.length) rs
+    else [r.take left]
+
 /-! ### the layer above the Stream: `Session.download` and `WebSession.download` -/
 
 /-- the parameters of `Session.download(file, raw, rewind, duration_timeout)`
